@@ -119,7 +119,7 @@ def run(tier: str, seed: int) -> int:
         sim_fvs: list = []
         while True:
             batches += 1
-            r = run_tlc('VmfDoc', 'VmfDoc_sim.cfg', simulate='num=%d' % (40 if thorough else 12), depth=45,
+            r = run_tlc('VmfDoc', 'VmfDoc_sim.cfg', simulate='num=%d' % (60 if thorough else 20), depth=45,
                         seed=seed * 1000 + batches, workers=16 if thorough else 8, timeout=1500)
             core.require_mc(r, 'VmfDoc_sim')
             lap('tlc_simulation')
